@@ -261,6 +261,28 @@ def _narrow_overflow(cols, fn):
     return False
 
 
+def _outcome(seen, cols=None, fn=None, narrow=False):
+    """KIND of the observed outcome (known-finding entries excuse only their recorded kinds):
+    raises:<class> | cells-are-arrays | values-wrapped (narrow ints: the exact column result modulo 2**bits) | values"""
+    if isinstance(seen, tuple) and len(seen) == 2 and seen[0] == 'ERR':
+        return f'raises:{seen[1]}'
+    if isinstance(seen, list) and any(isinstance(x, str) and x.startswith('array(') for x in seen):
+        return 'cells-are-arrays'
+    if narrow and cols and isinstance(seen, list) and len(seen) == len(cols):
+        rd = np.result_type(*[c.dtype for c in cols])
+        if rd.kind in 'iu':
+            info, wrapped = np.iinfo(rd), []
+            span = int(info.max) - int(info.min) + 1
+            for c in cols:
+                v = 0 if fn == 'sum' else 1
+                for x in c.tolist():
+                    v = v + x if fn == 'sum' else v * x
+                wrapped.append((v - int(info.min)) % span + int(info.min))
+            if seen == wrapped:
+                return 'values-wrapped'
+    return 'values'
+
+
 def _block_starts(layout):
     pos, out = 0, []
     for w, _ in layout:
@@ -348,6 +370,7 @@ def _reduce_case(ctx, cols, layout, fn, axis, skipna, ddof, index, columns, stra
     cls = classify_reduce(cols, layout, r, fn, axis, skipna)
     if cls:
         tags['finding'] = cls
+    tags['outcome'] = _outcome(seen, cols, fn, narrow=(cls == F_NARROW))
     ctx.count(f'fn:{fn}', f'axis:{axis}', f'skipna:{skipna}', f'rows:{min(r, 5)}', f'cols:{len(cols)}',
               f'nblocks:{min(len(layout), 4)}', f'rowkind:{_row_kind(cols) if cols else "-"}',
               'missing:yes' if any(c.dtype.kind == "f" and np.isnan(c).any() for c in cols) else 'missing:no',
@@ -368,6 +391,7 @@ def _arg_case(ctx, cols, layout, fn, axis, skipna, index, columns, stratum):
     cls = classify_arg(cols, r, axis)
     if cls:
         tags['finding'] = cls
+    tags['outcome'] = _outcome(seen)
     ctx.count(f'fn:{fn}', f'axis:{axis}', f'skipna:{skipna}', f'rows:{min(r, 5)}', f'class:{cls or "clean"}',
               f'outcome:{"error" if isinstance(seen, tuple) else "values"}')
     return Case(stratum, desc, m=f'check_arg_M {args}', s=f'check_arg_S {args}', tags=tags)
@@ -632,6 +656,24 @@ def _parity_case(ctx, kind, cols, layout, fn, axis, skipna, index, columns):
         tags['finding'] = F_DT_LOGICAL
     if kind in 'Mm' and fn in ('mean', 'median', 'std', 'var') and multi and axis == 0:
         tags['finding'] = F_DT_MEAN          # blocks are cast to float64 first: NaT becomes a huge negative number
+    # KIND of the observed outcome: the recorded wrong pattern of each finding, or plain 'values' / 'raises:<class>'
+    if isinstance(got, Exception):
+        tags['outcome'] = f'raises:{type(got).__name__}'
+    else:
+        tags['outcome'] = 'values'
+        fnd = tags.get('finding')
+        if fnd == F_STR_SUM and not errs:
+            w = cols[0].dtype.itemsize // (4 if kind == 'U' else 1)
+            if seen == [x[:w] for x in per_line]:
+                tags['outcome'] = 'values-truncated'         # the full concatenation cut to the column width
+        elif fnd == F_DT_SKIPNA:
+            lines_ = [list(c) for c in cols] if axis == 0 else [[c[i] for c in cols] for i in range(r)]
+            if seen == ['NaT' if any(np.isnat(x) for x in ln) else w_ for ln, w_ in zip(lines_, want)]:
+                tags['outcome'] = 'values-nat'               # NaT exactly for the lines that hold a NaT
+        elif fnd == F_DT_MEAN and all(isinstance(x, (int, float)) or x == 'nan' for x in seen):
+            tags['outcome'] = 'values-floats'                # plain floats instead of timedelta / a rejection
+        elif fnd == F_DT_LOGICAL and all(x in (0, 1) for x in seen):
+            tags['outcome'] = 'values-bools'
     desc = dict(_common(cols, layout, index, columns), call=f'frame.{fn}(axis={axis}, skipna={skipna})', observed=_j(seen),
                 per_line_as_series=_j(per_line))
     ctx.count(f'ext:{kind}:{fn}', f'axis:{axis}', f'skipna:{skipna}', f'class:{tags.get("finding", "clean")}')
@@ -900,6 +942,7 @@ def hierarchy_cases(ctx):
                 tags = {'fn': fn, 'axis': axis, 'skipna': skipna, 'hierarchy': True}
                 if fn in ('min', 'max', 'median', 'all', 'any'):
                     tags['finding'] = F_IH_DTYPE
+                tags['outcome'] = _outcome(seen_)
                 ctx.count(f'ih:fn:{fn}', f'ih:depth:{depth}', f'ih:class:{cls.__name__}')
                 yield Case('api:indexhierarchy-reduce',
                            {'call': f'{cls.__name__}.from_labels(labels).{fn}({", ".join(f"{a}={b}" for a, b in kw.items())})',
